@@ -90,13 +90,15 @@ type Sub struct {
 
 // Inst is one repository instance with the model's view of what it accepted and must still hold.
 type Inst struct {
-	name    string
-	repo    *headers.Repository
-	store   *memstore.Store
-	acc     model.Set // headers this instance accepted (or restored)
-	held    model.Set // subset the instance is obliged to still recognise as attach points
-	invalid map[model.Hash]bool
-	subs    []*Sub
+	name     string
+	repo     *headers.Repository
+	store    *memstore.Store
+	acc      model.Set // headers this instance accepted (or restored)
+	held     model.Set // subset the instance is obliged to still recognise as attach points
+	invalid  map[model.Hash]bool
+	excluded model.Set // accepted once, removed by an invalid mark
+	forgot   model.Set // accepted by a previous generation, not restored by Load (dropped side branches)
+	subs     []*Sub
 
 	lastSaveWork *big.Int // work of the tip at the last completed Save (C12)
 	floor        int      // upper bound of the lowest best-chain height still in memory
@@ -132,15 +134,16 @@ type M struct {
 
 	// history statistics for the non-trivial rules
 	reorgs, siblingReorgs, maintBetweenReorgs, heavierShorter, firstHeaderReorgs int
-	maintSinceReorg                                                                bool
-	refusalClasses                                                                 map[Verdict]int
-	atDepthAccept, beyondDepthRefuse                                               int
-	cleans, cleansMultiBranch, postCleanOvertake, loads, saves                    int
-	sideAtSave, sideExtendAfterLoad                                                int
-	storageServed, sideLookupAfterClean, crashCount, crashMidCount                 int
-	marksOnBest, marksSide, unmarks                                                int
-	subsCount                                                                      int
-	sideBornBeforeClean                                                            map[*model.Node]bool
+	maintSinceReorg                                                              bool
+	refusalClasses                                                               map[Verdict]int
+	atDepthAccept, beyondDepthRefuse                                             int
+	cleans, cleansMultiBranch, postCleanOvertake, loads, saves                   int
+	sideAtSave, sideExtendAfterLoad                                              int
+	storageServed, sideLookupAfterClean, crashCount, crashMidCount               int
+	marksOnBest, marksSide, unmarks                                              int
+	subsCount, reaccepted                                                        int
+	pending                                                                      []model.RawHeader // marked before being seen
+	sideBornBeforeClean                                                          map[*model.Node]bool
 }
 
 var bitsLadder = []uint32{0x1d00ffff, 0x1d00ffff, 0x1d00ffff, 0x1c7fffff, 0x1d00aaaa, 0x1c00ffff, 0x1b00ffff}
@@ -180,7 +183,7 @@ func (m *M) newInst(name string, store *memstore.Store) *Inst {
 	repo := headers.NewRepository(cfg, store)
 	repo.DisableDifficulty()
 	return &Inst{name: name, repo: repo, store: store, acc: model.Set{}, held: model.Set{},
-		invalid: map[model.Hash]bool{}}
+		invalid: map[model.Hash]bool{}, excluded: model.Set{}, forgot: model.Set{}}
 }
 
 func (m *M) load(inst *Inst) error {
@@ -257,7 +260,7 @@ func acceptedChildren(inst *Inst, p *model.Node) []*model.Node {
 func (m *M) expected(inst *Inst, raw *model.RawHeader) (allowed map[Verdict]bool, newNode bool, dontCare bool) {
 	allowed = map[Verdict]bool{}
 	parent := m.tree.ByHash[raw.Prev]
-	if parent == nil || !inst.acc[parent] {
+	if parent == nil || (!inst.acc[parent] && !inst.forgot[parent]) {
 		allowed[VUnknown] = true
 		return allowed, false, false
 	}
@@ -297,6 +300,14 @@ func (m *M) expected(inst *Inst, raw *model.RawHeader) (allowed map[Verdict]bool
 	if applicable == 0 {
 		allowed[VOK] = true
 		newNode = true
+	} else if len(inst.excluded) > 0 && !inst.invalid[raw.Hash()] {
+		// After a mark removed accepted headers, whether attaching at the point where the chain
+		// was cut counts as a new fork for the depth rule depends on what the trim left behind
+		// (the cut point is again the last header of its branch). Neither C17 ("unmarking makes
+		// the header acceptable again") nor C08 (no marks in its domain) settles it: both
+		// answers are allowed.
+		allowed[VOK] = true
+		dontCare = true
 	}
 	return allowed, newNode, dontCare
 }
@@ -354,17 +365,22 @@ func (m *M) submit(raw model.RawHeader, what string) {
 			}
 			n := m.tree.AddChild(raw)
 			inst.acc[n], inst.held[n] = true, true
+			if inst.excluded[n] && inst == m.insts[0] {
+				m.reaccepted++
+			}
 			if parent == inst.mainTip {
 				inst.mainTip = n
 			}
 			for a := parent; a != nil && !inst.acc[a]; a = a.Parent {
 				inst.acc[a] = true // evidently known to the instance (don't-care band)
+				delete(inst.forgot, a)
 			}
+			delete(inst.forgot, n)
 			m.noteAccept(inst, n, prevTip)
 		} else if err != nil && !wasAcc && parent != nil {
 			// "A submission that returns an error never leaves a strictly heavier accepted chain
 			// unreported": a header retained in spite of the error counts as accepted.
-			if inst.repo.HashHeight(bitcoin.Hash32(hash)) != -1 {
+			if x := m.tree.ByHash[hash]; inst.repo.HashHeight(bitcoin.Hash32(hash)) != -1 && !(x != nil && (inst.excluded[x] || inst.forgot[x])) {
 				if m.f.RefusalSnap || m.f.Verdicts {
 					m.fail(inst, "ProcessHeader(%s) returned %s (%v) but retained the header", what, v, err)
 				}
@@ -468,6 +484,9 @@ func (m *M) afterStepFull(full bool) {
 		if m.f.Locators {
 			m.checkLocator(inst)
 		}
+		if m.f.Marks {
+			m.checkMarks(inst)
+		}
 	}
 	if m.f.Twin && len(m.insts) == 2 {
 		a, b := m.reported(m.insts[0]), m.reported(m.insts[1])
@@ -568,6 +587,14 @@ func (m *M) checkLookups(inst *Inst, full bool) {
 		hdr, gh, gflag, gerr := inst.repo.GetHeader(ctx, h32)
 		ph, pheight := inst.repo.PreviousHash(h32)
 		onBest := model.IsAncestorOrEqual(n, tip)
+		if inst.forgot[n] {
+			// dropped by a Load: either forgotten or remembered with its true height, never
+			// reported as in the most-work chain
+			if (hh != -1 && hh != n.Height) || (cerr == nil && (ch != n.Height || flag)) || (gerr == nil && (gflag || fromWire(hdr).Hash() != n.Hash)) {
+				m.fail(inst, "side-branch header %s dropped by Load: HashHeight=%d CheckHeader=(%d,%v,%v) GetHeader flag=%v err=%v", n.Label, hh, ch, flag, cerr, gflag, gerr)
+			}
+			continue
+		}
 		if !inst.acc[n] {
 			if hh != -1 || cerr == nil || gerr == nil || ph != nil {
 				m.fail(inst, "never-accepted header %s is reported known: HashHeight=%d CheckHeader err=%v GetHeader err=%v PreviousHash=%v", n.Label, hh, cerr, gerr, ph)
